@@ -141,6 +141,10 @@ class Squid:
             self.prepare()
             self.create_dirs()
         self.starts += 1
+        try:  # cache.log is appended to across restarts: wait_rebuilt() only looks at what this start logged
+            self._log_mark = os.path.getsize(os.path.join(self.run, "cache.log"))
+        except OSError:
+            self._log_mark = 0
         args = [self.binary, "-f", self.conf_path, "-n", self.service]
         args += ["--foreground"] if self.workers else ["-N"]
         self.stdout = open(os.path.join(self.run, "stdout.%d" % self.starts), "wb")
@@ -173,7 +177,7 @@ class Squid:
         deadline = time.time() + timeout
         need = len(self.cache_dirs)
         while time.time() < deadline:
-            txt = self.cache_log()
+            txt = self.cache_log_since_start()
             n = len(re.findall(r"Finished rebuilding storage from disk|Done reading .* swaplog|Indexing cache entries: .*done", txt))
             if "Finished rebuilding storage from disk" in txt or n >= need:
                 return True
@@ -249,6 +253,15 @@ class Squid:
         try:
             with open(os.path.join(self.run, "cache.log"), errors="replace") as f:
                 return f.read()
+        except OSError:
+            return ""
+
+    def cache_log_since_start(self):
+        """cache.log text written since the latest start() (the file is appended to across restarts)."""
+        try:
+            with open(os.path.join(self.run, "cache.log"), "rb") as f:
+                f.seek(getattr(self, "_log_mark", 0))
+                return f.read().decode("utf-8", "replace")
         except OSError:
             return ""
 
